@@ -36,7 +36,7 @@ ASSUMPTIONS = [
 SHARDS = {'quick': 1, 'thorough': 4}
 TIMEOUT = {'quick': 900, 'thorough': 1800}
 FLOORS = {'denials_checked': 600, 'routes_enumerated': 60, 'allowed_mutations_observed': 10, 'ownership_denials_checked': 20,
-          'listing_responses_scanned': 150, 'records_in_listings_checked': 300, 'listings_with_foreign_jobs_in_matching_state': 40}
+          'listing_responses_scanned': 150, 'records_in_listings_checked': 300, 'listings_with_foreign_jobs_in_matching_state': 40, 'revoked_member_requests_checked': 60}
 
 # search terms for the listing routes: v1 (bare words, multi-state words, negations) and v2 (state / comparison expressions)
 QUERIES = ['', 'live', 'bad', 'done', '!done', '!live', 'running', 'failed', 'success', 'pending', 'cancelled', 'live\nbad', 'done\nname=x', 'has:name',
@@ -159,6 +159,58 @@ async def listing_phase(ctx, w, fe, base_state, batches, routes):
     finally:
         if old is not None:
             aiohttp_jinja2.render_template = old
+
+
+async def revocation_phase(ctx, w, fe, base_state, own, routes):
+    """Membership is judged at the time of the request: bob (member of bp-a) touches alice's batch, a developer removes bob
+    from bp-a through the real administration route, and from then on every batch-scoped request of bob must be denied and
+    change nothing - also seconds later (virtual time), whatever earlier answers may have been remembered."""
+    import asyncio
+
+    for method, path in routes:
+        if '{batch_id}' not in path or (method, path) in OWNER_ONLY:
+            continue
+        for delay in (0, 5, 45):
+            w.engine.load_state(base_state)
+            url = (path.replace('{batch_id}', str(own)).replace('{job_group_id}', '0').replace('{job_id}', '1').replace('{container}', 'main')
+                   .replace('{update_id}', '1').replace('{filename}', 'x.js'))
+            # 1. warm-up: bob, still a member, uses the batch (two different routes)
+            try:
+                r0 = await fe.request('GET', f'/api/v1alpha/batches/{own}', token='tok-member')
+                await fe.request(method if method == 'GET' else 'GET', url if method == 'GET' else f'/api/v1alpha/batches/{own}/jobs', token='tok-member')
+            except Unsupported as e:
+                raise Inconclusive('minimysql unsupported: ' + str(e))
+            except Exception:
+                r0 = None
+            if r0 is None or r0.status != 200:
+                ctx.count('revocation_warmup_failed')
+                continue
+            # 2. revocation through the real route, by a developer
+            rr = await fe.request('POST', '/api/v1alpha/billing_projects/bp-a/users/bob/remove', token='tok-developer')
+            if rr.status != 200:
+                ctx.seen('revocation_route_status', rr.status)
+                ctx.count('revocation_failed')
+                continue
+            if delay:
+                await asyncio.sleep(delay)
+            before = w.engine.snapshot()
+            try:
+                resp = await fe.request(method, url, token='tok-member', json=None)
+                status = resp.status
+                loc = str(resp.headers.get('Location', '')) if resp.headers else ''
+            except Unsupported as e:
+                raise Inconclusive('minimysql unsupported: ' + str(e))
+            except Exception as e:
+                status, loc = 'exc:' + type(e).__name__, ''
+            changed = before != w.engine.snapshot()
+            denied = (isinstance(status, int) and status >= 400) or (status == 302 and '/user' in loc and 'auth' in loc) or (isinstance(status, str) and not changed)
+            ctx.count('revoked_member_requests_checked')
+            case = {'method': method, 'route': path, 'caller': 'member-removed-from-billing-project', 'delay_s': delay, 'status': status, 'changed': changed}
+            ctx.case(sample=case, key=('revoked', method, path, delay), nontrivial=True)
+            if not denied:
+                ctx.violation('access-granted/removed-member', f'{method} {path} answered {status} to bob {delay}s after he was removed from the billing project of the batch', case)
+            if changed:
+                ctx.violation('state-changed-on-denied-request/removed-member', f'{method} {path} by bob {delay}s after his removal changed the tables (status {status})', case)
 
 
 def run(ctx):
@@ -307,6 +359,7 @@ def run(ctx):
                         if changed:
                             ctx.count('allowed_mutations_observed')
         await listing_phase(ctx, w, fe, base_state, {'own': own, 'shared': shared, 'foreign': foreign, 'deleted': deleted}, routes)
+        await revocation_phase(ctx, w, fe, base_state, own, routes)
         await w.shutdown()
     run_virtual(main, max_steps=20_000_000)
     ctx.exhaustive = False
